@@ -252,6 +252,15 @@ def _laws(case, ctx):
             with ctx.guard('compare|method=%s,%s' % (method, tag), sub):
                 got = compare(_wrap(X, 'rdms'), _wrap(Y, 'rdms'), method=method, **kw)
                 _judge_matrix(ctx, sub, method, got, X, Y, sk_ref, tol, tag)
+                # representation: a single RDM given as a plain 1-D vector
+                if n1 == 1 and n2 == 1:
+                    g1 = compare(np.array(X[0]), np.array(Y[0]), method=method, **kw)
+                    ctx.case(dict(sub, law='1-D vectors'))
+                    if np.asarray(g1).shape != (1, 1) or not np.array_equal(np.asarray(g1), np.asarray(got)):
+                        ctx.fail('compare|method=%s,%s|1-D-vectors!=RDMs' % (method, tag), sub, '%r vs %r' % (g1, got))
+                    g2 = compare(np.array(X[0]), _wrap(Y, 'rdms'), method=method, **kw)
+                    if not np.array_equal(np.asarray(g2), np.asarray(got)):
+                        ctx.fail('compare|method=%s,%s|1-D-vectors!=RDMs' % (method, tag), sub, '%r vs %r' % (g2, got))
                 # representation: ndarray == RDMs
                 got_arr = compare(np.array(X), np.array(Y), method=method, **kw)
                 ctx.case(dict(sub, law='ndarray==RDMs'))
